@@ -24,6 +24,7 @@ type JSONWriteRow struct {
 	AdvancesIfWritten bool // `if cw.written { comma = "," }`
 	KeyConst          bool
 	Calls             []string
+	Layouts           []string // constant layouts handed to time.Time.Format ("?" when not constant)
 	Pos               token.Pos
 }
 
@@ -37,6 +38,7 @@ type JSONReadRow struct {
 	Deletes         bool
 	NullTest        bool
 	DecodeTargets   []types.Type // types of the variables handed to json.Unmarshal(raw, &x)
+	Layouts         []string     // constant layouts handed to time.Parse ("?" when not constant)
 	Problems        []string
 	Pos             token.Pos
 }
@@ -148,6 +150,28 @@ func jsonObjects(p *Program) map[string]*JSONObject {
 			}
 		}
 	}
+	return out
+}
+
+// timeLayouts: the layout arguments of every time.Time.Format / time.Parse
+// call under n, as quoted constant values.
+func timeLayouts(info *types.Info, n ast.Node) []string {
+	var out []string
+	ast.Inspect(n, func(n ast.Node) bool {
+		call, ok := n.(*ast.CallExpr)
+		if !ok || len(call.Args) == 0 {
+			return true
+		}
+		switch calleeName(info, call) {
+		case "time.Time.Format", "time.Time.AppendFormat", "time.Parse", "time.ParseInLocation":
+			if tv := info.Types[call.Args[0]]; tv.Value != nil && tv.Value.Kind() == constant.String {
+				out = append(out, tv.Value.ExactString())
+			} else {
+				out = append(out, "?")
+			}
+		}
+		return true
+	})
 	return out
 }
 
@@ -372,6 +396,7 @@ func buildJSONWriter(p *Program, o *JSONObject) {
 				}
 				return true
 			})
+			row.Layouts = timeLayouts(info, body)
 			o.Writer = append(o.Writer, row)
 		default:
 			und("unexpected statement %T in writer", st)
@@ -812,6 +837,7 @@ func buildJSONReader(p *Program, o *JSONObject) {
 				}
 			}
 			visit(s.Body.List)
+			row.Layouts = timeLayouts(info, s.Body)
 			o.Reader = append(o.Reader, row)
 		case *ast.RangeStmt:
 			und("range statement without the preceding make-guard")
